@@ -322,6 +322,185 @@ def run_sizing(params, known):
                 known=[], samples=samples, outcomes=outcomes, report_keys=['outcomes'])
 
 
+def run_paced_control(params, known):
+    '''A transfer is being paced out (datagrams wait for tokens between timer ticks) when the peer
+    makes the sender queue a control message on the same socket (it announces that it listens:
+    SENDER_LISTEN, answered at once, ahead of the paced data), at every tick of the run, once or twice.
+    The bundle still leaves complete, every octet once, within the MTU, and is reported finished once.'''
+    violations = []
+    kinds = set()
+    keys = set()
+    count = 0
+
+    def viol(kind, detail, case):
+        if kind in kinds:
+            return
+        kinds.add(kind)
+        v = Violation(PROP, 'sizing', kind, dict(), '%r: %s' % (case, detail)).as_dict()
+        v['case'] = case
+        violations.append(v)
+    poll = C.dumps({3: 60000, 4: 'dtn://r/'})
+    for (length, mtu) in ((150, 1000), (101, 1000), (400, 120), (1000, 300), (70, 40)):
+        for polls in (1, 2):
+            k = 0
+            while True:
+                case = dict(length=length, mtu=mtu, poll_at_tick=k, polls=polls)
+                world = UdpWorld(dict(agents=('S',), mtu=mtu))
+                data = bundle_like(length, seed=5)
+                res = world.send('S', data)
+                ticks = 0
+                injected = False
+                guard = 0
+                while True:
+                    guard += 1
+                    if guard > 100000:
+                        raise HarnessError('paced send does not end')
+                    if world.runnable(world.procs['S']):
+                        world.apply(('run', 'S'))
+                        continue
+                    if ticks == k and not injected:
+                        injected = True
+                        local = [key for (key, sock) in world.net.bound.items() if not sock.closed]
+                        for _ in range(polls):
+                            for key in local:
+                                world.net.inject(key, R_ADDR, poll)
+                        continue
+                    if world.pending_work() and world.next_deadline() is not None:
+                        world.apply(('tick',))
+                        ticks += 1
+                        continue
+                    break
+                if not injected:
+                    break       # the run has fewer ticks than k: every position is done
+                count += 1
+                keys.add('%d/%d/%d/%d' % (length, mtu, k, polls))
+                k += 1
+                if res[0] != 'ok':
+                    viol('send-call-failed', repr(res), case)
+                    continue
+                if world.escaped:
+                    esc = world.escaped[-1]
+                    viol('exception-escaped-callback', '%s: %s' % (esc[1], esc[3]), case)
+                    continue
+                cover = [0] * length
+                control = 0
+                try:
+                    for dg in world.net.log:
+                        if len(dg['data']) > mtu:
+                            viol('datagram-exceeds-mtu', '%d octets' % len(dg['data']), case)
+                        for (kind, val) in decode_datagram(dg['data']):
+                            if kind == 'bundle':
+                                if val != data:
+                                    viol('unsegmented-bundle-differs', '%d octets' % len(val), case)
+                                cover = [c + 1 for c in cover]
+                            elif kind == 'ext' and 2 in val:
+                                (_xid, total, off, chunk) = val[2]
+                                if total != length or data[off:off + len(chunk)] != chunk:
+                                    viol('segment-data-differs', 'segment at %d' % off, case)
+                                for i in range(off, min(length, off + len(chunk))):
+                                    cover[i] += 1
+                            elif kind == 'ext':
+                                control += 1
+                except Exception as err:
+                    viol('datagram-undecodable', '%s: %s' % (type(err).__name__, err), case)
+                    continue
+                holes = [i for (i, c) in enumerate(cover) if c == 0]
+                twice = [i for (i, c) in enumerate(cover) if c > 1]
+                if holes:
+                    viol('segments-do-not-tile-the-bundle', 'octets %d..%d (%d in all) never left the node' % (holes[0], holes[-1], len(holes)), case)
+                if twice:
+                    viol('octets-sent-twice', 'octets %d..%d' % (twice[0], twice[-1]), case)
+                fin = [sg for sg in world.signals['S'] if sg[0] == 'send_bundle_finished']
+                if len(fin) != 1:
+                    viol('finished-signal-count', repr(fin), case)
+                if control < 1:
+                    viol('control-message-not-sent', 'no answer to the peer announcing that it listens', case)
+    return dict(name=params['name'], evaluations=count, nontrivial_keys=sorted(keys), violations=violations, known=[], samples=[])
+
+
+def run_pop_histories(params, known):
+    '''Receive / pop histories at a real receiving agent: four bundles arrive one after the other
+    (whole, or in two segments in either order); the user pops any announced and not yet popped
+    bundle at any point.  Every interleaving: each announcement carries an id no other waiting
+    bundle holds, the queue listing is exactly announced minus popped, and popping an id returns
+    the bundle announced under it.'''
+    violations = []
+    kinds = set()
+    count = 0
+    keys = set()
+    N = 4
+
+    def viol(kind, detail, case):
+        if kind in kinds:
+            return
+        kinds.add(kind)
+        v = Violation(PROP, 'receive-queue', kind, dict(), '%r: %s' % (case, detail)).as_dict()
+        v['case'] = case
+        violations.append(v)
+    bundles = [bundle_like(12 + k, seed=k + 1) for k in range(N)]
+
+    def histories(done, popped, trail):
+        if done == N and len(popped) == N:
+            yield list(trail)
+            return
+        if done < N:
+            yield from histories(done + 1, popped, trail + [('rx', done)])
+        for k in range(done):
+            if k not in popped:
+                yield from histories(done, popped + (k,), trail + [('pop', k)])
+    for form in ('whole', 'segments', 'segments-reversed'):
+        for hist in histories(0, (), []):
+            count += 1
+            case = dict(history=['%s%d' % h for h in hist], form=form)
+            world = UdpWorld(dict(agents=('R',)))
+            ids = {}
+            seen = 0
+            popped = set()
+            ok = True
+            for (op, k) in hist:
+                if op == 'rx':
+                    data = bundles[k]
+                    if form == 'whole':
+                        dgrams = [data]
+                    else:
+                        dgrams = [enc_segment(20 + k, len(data), 0, data[:5]), enc_segment(20 + k, len(data), 5, data[5:])]
+                        if form == 'segments-reversed':
+                            dgrams.reverse()
+                    for dg in dgrams:
+                        world.activate(None)
+                        world.net.inject(R_ADDR, S_ADDR, dg)
+                        world.quiesce()
+                    sigs = [sg for sg in world.signals['R'] if sg[0] == 'recv_bundle_finished']
+                    if len(sigs) != seen + 1:
+                        viol('completion-not-announced-once', 'signals %r' % (sigs[seen:],), case)
+                        ok = False
+                        break
+                    seen = len(sigs)
+                    bid = sigs[-1][1]
+                    if bid in [ids[j] for j in ids if j not in popped]:
+                        viol('announced-id-reused', 'id %r announced for bundle %d is still held by a waiting bundle' % (bid, k), case)
+                        ok = False
+                        break
+                    ids[k] = bid
+                else:
+                    res = world.pop('R', ids[k])
+                    popped.add(k)
+                    if res[0] != 'ok' or bytes(res[1]) != bundles[k]:
+                        viol('pop-returns-other-data', 'pop of id %r (bundle %d) -> %r' % (ids[k], k, res), case)
+                        ok = False
+                        break
+                q = world.queue('R')
+                want = sorted(str(ids[j]) for j in ids if j not in popped)
+                if q[0] != 'ok' or sorted(str(x) for x in q[1]) != want:
+                    viol('receive-queue-differs', 'queue %r, announced and not popped %r' % (q, want), case)
+                    ok = False
+                    break
+            if ok and world.escaped:
+                viol('exception-escaped-callback', '%s: %s' % (world.escaped[-1][1], world.escaped[-1][3]), case)
+            keys.add(','.join(case['history']) + form)
+    return dict(name=params['name'], evaluations=count, nontrivial_keys=sorted(keys), violations=violations, known=[], samples=[])
+
+
 # ---------------------------------------------------------------------------
 # (c) confirmation-set range coding
 
@@ -557,6 +736,8 @@ def scenarios(tier):
         name = 'sizing-%d/%d' % (part + 1, parts)
         out.append(dict(name=name, kind='enum', runner='run_sizing', params=dict(name=name, part=part, parts=parts, tier=tier), weight=50))
     out.append(dict(name='ranges', kind='enum', runner='run_ranges', params=dict(name='ranges'), weight=5))
+    out.append(dict(name='pop-histories', kind='enum', runner='run_pop_histories', params=dict(name='pop-histories'), weight=20))
+    out.append(dict(name='paced-control', kind='enum', runner='run_paced_control', params=dict(name='paced-control'), weight=30))
     depth = 6 if tier == 'thorough' else 5
     t1 = [0, 1, 2, 7]
     for first in t1:
@@ -574,6 +755,8 @@ ASSUMPTIONS = [
     'UDP modelled as datagrams that may be reordered and duplicated; the sending agent runs under a virtual clock (pacing timer)',
     'sizing: bundle lengths 2..70, 250..262, 65535/65536 (65530..65541 thorough); a bundle of exactly the MTU may be segmented',
     'reassembly: duplicates may yield a second complete copy but never a partial or corrupt one; histories of at most 4-6 datagrams',
+    'receive queue: four bundles (whole or in two segments, either order) and their pops in every interleaving',
+    'paced sending: bundles of 70..1000 octets (whole and in 2..5 segments) with one or two SENDER_LISTEN announcements of the peer arriving on the sending socket at every pacing tick of the run',
     'ECN marking / feedback switched off in these scenarios (configuration)',
     'reassembly: the second peer shares the host address of the first (other UDP port); in the mixed histories the receiver itself is configured with a sending MTU (16) smaller than the datagrams it receives',
 ]
